@@ -115,6 +115,9 @@ def _cfgs(tier):
     out.append(dict(base, precision=1e-5))
     out.append(dict(base, max_krylov_dim=12))
     out.append(dict(base, init="seeded"))
+    out.append(dict(base, init="seeded", init_via="amplitudes_gr"))  # the same initial state, the basis spelled ("g", "r")
+    # the same observables listed in reverse order (an observable that re-centres the shared state must not disturb the next one)
+    out.append(dict(base, obs_order="reversed"))
     if tier == "thorough":
         out.append(dict(base, init="product:0110"))
         out.append(dict(base, dt=17))
